@@ -390,8 +390,65 @@ func directedFutureViewProposal(rep *Report, seed int64) {
 	}
 }
 
+// the block of a NEW_VIEW for a later view is validated before the node moves there: the call must still be released
+// by the election of the view the node is in (F15, second half)
+func directedNewViewValidation(rep *Report, seed int64) {
+	d := newDirectedNode(seed)
+	fail := func(prop, sig, detail string) { rep.finding(prop, sig, detail, d.replay()) }
+	defer func() {
+		if !d.stop() {
+			fail("C16", "shutdown-hangs", "directed new-view scenario: WaitUntilShutdown did not return")
+		}
+	}()
+	rep.count("runtime:directed-new-view-validation")
+	go d.lh.UpdateState(d.ctx, nil, nil)
+	if !d.waitFor("NR", 1, 0, 3*time.Second) {
+		fail("C14", "sync-no-effect", "directed: UpdateState(genesis) did not start height 1")
+		return
+	}
+	gate := d.utils.setGate()
+	var opened int32
+	open := func() {
+		if atomic.CompareAndSwapInt32(&opened, 0, 1) {
+			close(gate)
+		}
+	}
+	defer open()
+	// member 2 leads (1,1); votes of members 1, 2, 3 (no locks), a fresh block
+	var votes []aVote
+	for _, id := range []uint64{1, 2, 3} {
+		votes = append(votes, aVote{uint64(protocol.LEAN_HELIX_VIEW_CHANGE), rtInst, 1, 1, nil, aSig{Id: id, Ok: true}})
+	}
+	nv := d.cdc.encode(&aMsg{Kind: "NV", NVType: uint64(protocol.LEAN_HELIX_NEW_VIEW), NVInst: rtInst, NVHeight: 1, NVView: 1, Votes: votes, Snd: aSig{Id: 2, Ok: true},
+		Ref: aRef{Type: uint64(protocol.LEAN_HELIX_PREPREPARE), Inst: rtInst, Height: 1, View: 1, Hash: 779}, PPSnd: aSig{Id: 2, Ok: true}, Block: &aBlock{Height: 1, Id: 779}})
+	go d.lh.HandleConsensusMessage(d.ctx, nv)
+	if !d.waitFor("SPI+validate", 1, 0, 2*time.Second) {
+		rep.count("runtime:directed-setup-failed")
+		return
+	}
+	callCtx := d.utils.ctxOfCall()
+	if !d.trig.fire(1, 0, "own-view") {
+		fail("C14", "main-loop-blocked", "directed: the main loop did not take an election trigger while the worker was inside an SPI call")
+		return
+	}
+	if !ctxDoneWithin(callCtx, time.Second) {
+		fail("C15", "spi-call-not-released-by-own-election", "directed: in view (1,0) the node validates the block of a NEW_VIEW for (1,1) under a context that the election of (1,0) does not cancel; the worker stays in the SPI call and the node is stalled")
+	}
+	open()
+	if !d.waitFor("ACT", 1, 0, 3*time.Second) {
+		fail("C19", "newest-trigger-lost", "directed: the election of (1,0) never happened after the validation returned")
+		return
+	}
+	for _, e := range d.log.snapshot() {
+		if e.Kind == "SEND" && e.A == uint64(protocol.LEAN_HELIX_PREPARE) && e.V == 1 {
+			fail("C15", "result-under-cancelled-context-used", "directed: a PREPARE for (1,1) was sent although the validation returned after its context was cancelled")
+		}
+	}
+}
+
 func runDirected(rep *Report, seed int64, thorough bool) {
 	directedFutureViewProposal(rep, seed+100)
+	directedNewViewValidation(rep, seed+101)
 	gaps := []time.Duration{0, 2 * time.Millisecond, 10 * time.Millisecond}
 	if thorough {
 		gaps = append(gaps, 200*time.Microsecond, time.Millisecond, 5*time.Millisecond, 30*time.Millisecond)
